@@ -221,6 +221,7 @@ type kEval struct {
 	sigSeen   map[string]bool
 	stateSeen map[string]bool
 	imgN      int
+	curPt     int  // crash point under evaluation (mutation index + torn bytes)
 	overlap   bool // the image under evaluation holds two segment files with a common offset
 }
 
@@ -446,6 +447,7 @@ func (ke *kEval) report(pt crashPoint, f *Fault, symptom, format string, a ...an
 
 func (ke *kEval) evalPoint(pt crashPoint, replay *Fault) {
 	heartbeat()
+	ke.curPt = pt.Mut + pt.Torn
 	if ke.def.ID == "C06" {
 		ke.evalPowerLoss(pt, replay)
 		return
@@ -556,7 +558,9 @@ func (ke *kEval) recordRecovery(dir string) []sim.FSEvent {
 
 func (ke *kEval) recOpts() klevdb.Options {
 	o := ke.r.OOpts
-	o.Recover, o.Check, o.Eager, o.Readonly = true, false, false, false
+	// Check next to Recover changes nothing ("Open will directly try to recover"): set for a
+	// quarter of the crash points (decided by the crash point, so that a replay does the same)
+	o.Recover, o.Check, o.Eager, o.Readonly = true, ke.curPt%4 == 3, false, false
 	return o.K(&ke.plan.Cfg)
 }
 
